@@ -30,7 +30,7 @@ RULE = ('cases = (ranked chi² vector over {1, 2, 3.5, +inf, NaN} of length 0..5
 REQUIRED_BRANCHES = ['form_A', 'form_N', 'form_C', 'form_D', 'form_E', 'form_F', 'empty', 'tie', 'inf', 'nan',
                      'nan_first', 'inf_first', 'n_gt_total', 'n_fractional', 'keeps_none', 'keeps_all', 'keeps_some',
                      'cut_between_distinct', 'flags_non_fitted', 'ndata0_E', 'ndata0_F', 'ndata0_empty_flags', 'thr_pinf', 'thr_ninf', 'thr_nan', 'num_int', 'num_np_float64',
-                     'num_np_int64', 'num_np_float32', 'fitted', 'fitted_from_fitter', 'fitted_from_file', 'fitted_pair', 'pair_idem', 'pair_looser', 'pair_stricter', 'long']
+                     'num_np_int64', 'num_np_float32', 'fitted', 'fitted_from_fitter', 'fitted_from_file', 'fitted_pair', 'nfits_read_before_keep', 'nfits_read_between_keeps', 'pair_idem', 'pair_looser', 'pair_stricter', 'long']
 ASSUMPTIONS = ['rounding of (chi2 - chi2[0]) / n_data is not modelled: thresholds are kept at least 1e-6 (relative) away '
                'from every attained criterion value, so the float and the exact comparison cannot differ',
                'n_data = 0 (no point flagged 1 or 4) is in the domain: chi2 / 0 follows IEEE (x/0 = +inf for x > 0, 0/0 = nan), '
@@ -369,14 +369,33 @@ def sel_tok(s):
     return '%s %s' % (form, ef.ef_tok(v))
 
 
-def apply_real(fresh, sels):
-    """FitInfo.keep applied left to right on a fresh object; returns (list of n_fits, final rows)"""
+class StaleNFits(Exception):
+    pass
+
+
+def apply_real(fresh, sels, peek='after'):
+    """FitInfo.keep applied left to right on a fresh object; returns (list of n_fits, final rows).
+    `n_fits` is read at the moments `peek` names: 'before' (also once before the first keep), 'after' (after every
+    keep, hence also between composed keeps), 'end' (only after the last keep).  Whenever it is read it must be the
+    number of fits the arrays hold at that moment."""
     info = fresh()
     ns = []
     with common.quiet():
-        for s in sels:
+        if peek == 'before':
+            n0 = int(info.n_fits)
+            if n0 != len(info.chi2):
+                raise StaleNFits('n_fits = %d before any keep, but the result holds %d fits' % (n0, len(info.chi2)))
+        for i, s in enumerate(sels):
             info.keep(s)
-            ns.append(int(info.n_fits))
+            if peek != 'end' or i == len(sels) - 1:
+                n = int(info.n_fits)
+                if n != len(info.chi2):
+                    raise StaleNFits('after keep(%r)%s n_fits = %d, but chi2 (and every other per-fit array) holds %d fits'
+                                     % (s, '' if peek != 'before' else ' (n_fits had been read once before the keep)',
+                                        n, len(info.chi2)))
+                ns.append(n)
+            else:
+                ns.append(len(info.chi2))
     return ns, ef.rows_of_info(info)
 
 
@@ -396,6 +415,8 @@ def evaluate(chi2, pay, flags, sels, typed, fresh, br, what):
         singles = []
         for s, ts in zip(sels, typed):
             ns, rows = apply_real(fresh, [ts])
+            apply_real(fresh, [ts], peek='before')          # n_fits read once before the keep must not stick
+            br.add('nfits_read_before_keep')
             k = expected_count(s, chi2, nd)
             if k is None:
                 return False, 'harness: criterion not monotone on a ranked vector %r %r' % (chi2, s), None, None
@@ -410,7 +431,10 @@ def evaluate(chi2, pay, flags, sels, typed, fresh, br, what):
                     br.add('cut_between_distinct')
         real_ns, real_rows = [singles[0][0]], singles[0][1]
         if len(sels) == 2:
-            real_ns, real_rows = apply_real(fresh, typed)
+            real_ns, real_rows = apply_real(fresh, typed)          # n_fits read between the two keeps and after
+            br.add('nfits_read_between_keeps')
+            apply_real(fresh, typed, peek='before')
+            apply_real(fresh, typed, peek='end')
             n1, n2 = singles[0][0], singles[1][0]
             if sels[0] == sels[1]:
                 br.add('pair_idem')
@@ -422,6 +446,8 @@ def evaluate(chi2, pay, flags, sels, typed, fresh, br, what):
                 return (False, '%s: keep(%r) keeps %d >= %d = what keep(%r) keeps, but keep(%r) after keep(%r) '
                         'gives %r while keep(%r) alone gives %r' % (what, typed[0], n1, n2, typed[1], typed[1], typed[0],
                                                                       real_rows, typed[1], singles[1][1]), real_ns, real_rows)
+    except StaleNFits as e:
+        return False, '%s, selectors %r: %s' % (what, typed, e), None, None
     except Exception as e:
         return False, '%s: FitInfo.keep raised %s: %s, selectors %r' % (what, type(e).__name__, e, typed), None, None
     return True, '', real_ns, real_rows
